@@ -19,6 +19,7 @@ import (
 	"verif/harness/known"
 	"verif/harness/pscanon"
 	"verif/harness/psgen"
+	"verif/harness/t1ref"
 
 	_ "verif/harness/psdiff"
 )
@@ -231,19 +232,47 @@ func deepExec(n int) string {
 	return strings.Repeat("{", n) + " 1 " + strings.Repeat("} exec ", n)
 }
 
+// eexecSection returns `currentfile eexec` followed by the hex form of the
+// encrypted body (harness cipher).
+func eexecSection(body string) string {
+	plain := append([]byte{'v', 'e', 'r', 'i'}, body...)
+	return fmt.Sprintf("currentfile eexec %x", t1ref.Encrypt(plain, 55665))
+}
+
+// eexecBodies grow the dictionary stack from inside an eexec section; the
+// section itself adds systemdict without consulting the limit, so the
+// section is entered at every depth up to and including the limit.
+var eexecBodies = []string{
+	"{userdict begin} loop",
+	"{1 dict begin} loop",
+	"/a {1 dict begin a} def a",
+	"0 1 100 {pop currentdict begin} for",
+}
+
 func instance(t *rapid.T) limitCase {
-	k := rapid.IntRange(0, len(templates)).Draw(t, "template")
+	k := rapid.IntRange(0, len(templates)+2).Draw(t, "template")
 	var tm tmpl
+	flat := false
 	if k == len(templates) {
 		n := rapid.IntRange(95, 130).Draw(t, "execdepth")
 		tm = tmpl{deepExec(n), []string{"execstackoverflow", ""}}
+	} else if k > len(templates) {
+		depth := rapid.OneOf(rapid.IntRange(0, 18), rapid.IntRange(15, 18)).Draw(t, "begins")
+		body := rapid.SampledFrom(eexecBodies).Draw(t, "eexecbody")
+		tm = tmpl{strings.Repeat("1 dict begin ", depth) + eexecSection(body), []string{"dictstackoverflow"}}
+		flat = true
 	} else {
 		tm = templates[k]
 	}
 	text := tm.body
 	// padding and nesting that does not change the expected outcome
 	for i := rapid.IntRange(0, 3).Draw(t, "wraps"); i > 0; i-- {
-		switch rapid.IntRange(0, 5).Draw(t, "wrap") {
+		w := rapid.IntRange(0, 5).Draw(t, "wrap")
+		if flat {
+			// the encrypted text must follow in the input stream itself
+			w = 2 + w%2
+		}
+		switch w {
 		case 0:
 			text = "{ " + text + " } exec"
 		case 1:
@@ -288,7 +317,11 @@ func judge(c limitCase, o isolate.Outcome) string {
 	if stack > 2*500+4 {
 		return fmt.Sprintf("operand stack grew to %d entries\nprogram: %s", stack, c.Text)
 	}
-	if dict > 20 {
+	limit := 20
+	if strings.Contains(c.Text, "eexec") {
+		limit = 21 // the section's own systemdict entry
+	}
+	if dict > limit {
 		return fmt.Sprintf("dictionary stack grew to %d entries\nprogram: %s", dict, c.Text)
 	}
 	return ""
@@ -306,7 +339,7 @@ func nameRecursionBug(rec *ev.Rec) bool {
 func TestP2Limits(t *testing.T) {
 	rec := ev.New("C11", "limits")
 	defer rec.Finish(t)
-	rec.Rule("recursion and growth templates run with MaxOps = 0 in a child process (a Go stack overflow or a hang is the failure mode): self-call in non-tail position directly and through exec, if, ifelse, repeat, forall (array, string), for, loop; mutual recursion over 2 and 3 names; a procedure applying itself; begin in loops and in recursion; loops that push (loop, for, repeat, dup, count, inside an open array); error handlers in errordict that fail themselves or loop; exec chains 95-130 deep; array/string/dict requests of 65536, 65537, 2^31, 2^32, maxint - each wrapped 0-3 times in exec / if / ifelse / repeat / begin / padding. Oracle: the run ends with the PostScript error the template determines (execstackoverflow, stackoverflow, dictstackoverflow, limitcheck ...), operand stack <= 1004 and dictionary stack <= 20 entries. Non-trivial: template nested >= 2 deep (>= 1 wrapper); distinct by program text.")
+	rec.Rule("recursion and growth templates run with MaxOps = 0 in a child process (a Go stack overflow or a hang is the failure mode): self-call in non-tail position directly and through exec, if, ifelse, repeat, forall (array, string), for, loop; mutual recursion over 2 and 3 names; a procedure applying itself; begin in loops and in recursion, also inside an eexec section entered at dictionary-stack depth 2..21 (the section adds one entry of its own, so <= 21 there); loops that push (loop, for, repeat, dup, count, inside an open array); error handlers in errordict that fail themselves or loop; exec chains 95-130 deep; array/string/dict requests of 65536, 65537, 2^31, 2^32, maxint - each wrapped 0-3 times in exec / if / ifelse / repeat / begin / padding. Oracle: the run ends with the PostScript error the template determines (execstackoverflow, stackoverflow, dictstackoverflow, limitcheck ...), operand stack <= 1004 and dictionary stack <= 20 entries. Non-trivial: template nested >= 2 deep (>= 1 wrapper); distinct by program text.")
 	bug := nameRecursionBug(rec)
 	var cases []limitCase
 	var raws [][]byte
